@@ -363,6 +363,67 @@ impl Leg for OligoOne {
     }
 }
 
+/// the memory-mapped writer as the executable drives it (`comp oligo` on a file, normalised), with the thread
+/// option left to the program in half of the cases and under generated environments (pool-size variable, CPUs
+/// available to the process): file size = header + records x row, no byte left unwritten
+#[derive(Clone, Debug, Serialize, Deserialize)]
+pub struct ExeCase {
+    pub recs: Vec<Rec>,
+    pub cont: Container,
+    pub k: u64,
+    pub header: bool,
+    pub preset: u8,
+    pub threads: usize,
+    pub env_profile: u8,
+}
+
+pub struct MmapExe;
+impl Leg for MmapExe {
+    type Case = ExeCase;
+    const NAME: &'static str = "mmap-executable";
+    fn strategy(_tier: Tier) -> BoxedStrategy<ExeCase> {
+        (3u64..=7, any::<bool>(), 0u8..3, prop_oneof![3 => Just(0usize), 1 => Just(1usize), 2 => 2usize..=16], prop_oneof![1 => Just(0u8), 3 => 0u8..128])
+            .prop_flat_map(|(k, header, preset, threads, env_profile)| {
+                let p = RecParams { max_records: if k >= 7 { 4 } else { 20 }, scale: k as usize, max_len: 60, degenerate_w: 2, bounds: [k as usize, 0, 0], nuc_only: false };
+                gen::records_in_container(p).prop_map(move |(recs, cont)| ExeCase { recs, cont, k, header, preset, threads, env_profile })
+            })
+            .boxed()
+    }
+    fn check(c: &ExeCase) -> Verdict {
+        use super::cmd::{Cmd, Preset, Sub};
+        let mut v = Verdict::new();
+        let preset = [Preset::Spc, Preset::Csv, Preset::Tsv][c.preset as usize % 3];
+        let cmd = Cmd { k: c.k, header: c.header, preset, threads: c.threads, env_profile: c.env_profile, ..Cmd::base(Sub::Oligo) };
+        v.class("mmap-executable");
+        v.class_if(c.threads == 0, "threads-automatic");
+        v.class_if((c.env_profile >> 5) & 3 == 1 || c.env_profile & 3 == 1, "one-cpu-or-pool-of-one");
+        v.nontrivial = c.recs.len() >= 2;
+        let dir = crate::scratch_dir();
+        let input = io::write_input(dir.path(), "in", &c.recs, &c.cont);
+        let out = dir.path().join("out.txt");
+        let o = super::cmd::run_via_cli(&cmd, &input, None, &out, None);
+        if o.timed_out {
+            v.class("cli-timeout");
+            return v;
+        }
+        if !o.clean() {
+            v.fail("cli-failed", format!("{:?}: {}", cmd.args("IN", None, "OUT"), o.describe()));
+            return v;
+        }
+        let data = o.files.get("").cloned().unwrap_or_default();
+        let kcount = model::closed_form_count(c.k as usize) as usize;
+        let row_len = kcount * 8 + (kcount - 1) + 1;
+        let header_len = if c.header { kcount * c.k as usize + (kcount - 1) + 1 } else { 0 };
+        let expect = header_len + c.recs.len() * row_len;
+        if data.len() != expect {
+            v.fail("file-size", format!("{:?} (environment profile {}): the output has {} bytes, header {} + {} records x row {} = {}", cmd.args("IN", None, "OUT"), c.env_profile, data.len(), header_len, c.recs.len(), row_len, expect));
+        } else if let Some(p) = data.iter().position(|&b| b == 0) {
+            v.fail("nul-byte", format!("{:?} (environment profile {}): the output holds a NUL byte at offset {} of {}", cmd.args("IN", None, "OUT"), c.env_profile, p, data.len()));
+        }
+        v
+    }
+}
+
 /// pykmertools objects whose public data attributes are assigned generated values before they are used
 /// (py/attrfuzz.py in a child interpreter with a debug-assertions build of the module): most classes refuse
 /// every assignment; where one is accepted, using the object afterwards must still not index outside a buffer
@@ -418,6 +479,9 @@ impl Leg for PyAttrs {
 }
 
 pub fn run(ctx: &mut Ctx) {
+    let n = ctx.share(ctx.tier.pick(800, 16_000));
+    ctx.run_leg::<MmapExe>(n, false, 60);
+    super::timeouts_inconclusive(ctx);
     let n = ctx.share(ctx.tier.pick(64, 1_600));
     ctx.run_leg::<PyAttrs>(n, false, 20);
     crate::pyworker::infra_inconclusive(ctx);
@@ -441,6 +505,7 @@ pub fn replay(leg: &str, case: &serde_json::Value) -> Option<Result<Verdict, Str
         "mmap-writes" => Some(crate::engine::replay_leg::<Mmap>(case)),
         "mmap-giant" => Some(crate::engine::replay_leg::<MmapGiant>(case)),
         "python-attribute-assignments" => Some(crate::engine::replay_leg::<PyAttrs>(case)),
+        "mmap-executable" => Some(crate::engine::replay_leg::<MmapExe>(case)),
         "cov-bins" => Some(crate::engine::replay_leg::<Cov>(case)),
         "ctr-partitions" => Some(crate::engine::replay_leg::<Ctr>(case)),
         "kcgr-vectors" => Some(crate::engine::replay_leg::<Kcgr>(case)),
